@@ -1642,8 +1642,13 @@ class AstEval:
 
     async def ast_compare(self, arg):
         """Evaluate comparison operators by calling function based on class."""
-        left = arg.left
-        for cmp_op, right in zip(arg.ops, arg.comparators):
+        #
+        # each operand is evaluated exactly once, left to right; the operand values
+        # are handed to the operator functions as constant nodes
+        #
+        left = ast.Constant(value=await self.aeval(arg.left))
+        for cmp_op, right_ast in zip(arg.ops, arg.comparators):
+            right = ast.Constant(value=await self.aeval(right_ast))
             name = "ast_cmpop_" + cmp_op.__class__.__name__.lower()
             val = await getattr(self, name, self.ast_not_implemented)(left, right)
             if not val:
